@@ -121,7 +121,7 @@ def _smooth(ctx, ci, x, std, pads):
     try:
         res = it.call_method(o, "__call__", {"p": x})["p"]
     except Raised as r:
-        raise AnalysisError(f"GaussianSmoothing2D raises on an admissible design: {r}")
+        return r
     if not (isinstance(res, NdArr) and res.shape == x.shape):
         raise AnalysisError(f"GaussianSmoothing2D returned {res!r} for input shape {x.shape}")
     return res
@@ -172,6 +172,9 @@ def _case(ctx, payload):
         pads["high1"] = arr("ph1", (nx,))
     label = f"{Q}[shape{shape},std{std},pads={'+'.join(sorted(padset)) or 'default'}]"
     res = _smooth(ctx, ci, x, std, pads)
+    ctx.ob("R22.0", f"{label}:accepted", isinstance(res, NdArr), "a design with one singleton axis and padding arrays of the matching edge lengths is smoothed, not rejected", str(res)[:200] if not isinstance(res, NdArr) else "smoothed", "an array of the input's shape")
+    if not isinstance(res, NdArr):
+        return
     inputs = [to_rat(v) for v in x.data] + [to_rat(v) for pv in pads.values() for v in pv.data]
     in_atoms = [next(iter(v.atoms())) for v in inputs]
     bad_aff = bad_sum = bad_pos = None
@@ -202,6 +205,9 @@ def _case(ctx, payload):
             padf = {"low1": pads.get("high1"), "high1": pads.get("low1"), "low0": _rev(pads.get("low0")), "high0": _rev(pads.get("high0"))}
         padf = {k_: v for k_, v in padf.items() if v is not None}
         resf = _smooth(ctx, ci, xf, std, padf)
+        if not isinstance(resf, NdArr):
+            ctx.ob("R22.4", f"{label}:mirror-axis{which}", False, "smoothing the mirrored design with mirrored padding equals mirroring the smoothed design", str(resf)[:200], "flip(T(x))")
+            continue
         want = _flip2(res, plane, which)
         bad = None
         for k, (g, w) in enumerate(zip(resf.data, want.data)):
@@ -256,9 +262,31 @@ def _kernel(ctx):
         ctx.ob("R22.3", f"{Q}._create_gaussian_kernel[sigma={sigma}]", ok and bad is None, "kernel = exp(-(x^2+y^2)/(2 sigma^2)) over arange(-h, h+1)^2, normalised to sum 1, even in both coordinates", bad, "normalised Gaussian")
 
 
+def _position(ctx, payload):
+    """the smoothed plane does not depend on which of the three axes is the singleton one"""
+    _, (nx, ny), std, padset = payload
+    ix = ctx.index
+    ci = ix.cls(Q)
+    plane = [Rat.atom(("x", i, j)) for i in range(nx) for j in range(ny)]
+    pads = {}
+    for nm, n in (("low0", ny), ("high0", ny), ("low1", nx), ("high1", nx)):
+        if nm in padset:
+            pads[nm] = arr("p" + nm, (n,))
+    outs = {}
+    for p_ in range(3):
+        shape = [nx, ny]
+        shape.insert(p_, 1)
+        res = _smooth(ctx, ci, NdArr(tuple(shape), list(plane)), std, pads)
+        outs[p_] = [to_rat(v) for v in res.data] if isinstance(res, NdArr) else str(res)[:120]
+    bad = [p_ for p_ in (1, 2) if not (isinstance(outs[p_], list) and isinstance(outs[0], list) and all(a.equals(b) for a, b in zip(outs[p_], outs[0])))]
+    ctx.ob("R22.5", f"{Q}[plane {nx}x{ny},std{std},pads={'+'.join(sorted(padset)) or 'default'}]:singleton-position", not bad, "the same plane with the same padding arrays is smoothed to the same result whether the singleton axis comes first, in the middle or last", [(p_, outs[p_] if not isinstance(outs[p_], list) else "differs") for p_ in bad], "identical planes")
+
+
 def _job(ctx, payload):
     if payload == "kernel":
         _kernel(ctx)
+    elif payload[0] == "position":
+        _position(ctx, payload)
     else:
         _case(ctx, payload)
 
@@ -275,6 +303,7 @@ def run(ctx):
         if shape == (1, 4, 3) and ps not in ((), ("low0", "high0", "low1", "high1")):
             continue
         jobs.append((shape, std, ps))
+    jobs += [("position", (3, 3), 1, ("low0", "high0", "low1", "high1")), ("position", (2, 3), 1, ("low0", "high1")), ("position", (3, 2), 1, ())]
     err = run_jobs(ctx, "sa.checks.c22", "_job", jobs, [str(j) for j in jobs])
     if err is not None:
         raise AnalysisError(err)
